@@ -42,6 +42,10 @@ pub(crate) mod compose_h {
 pub(crate) mod utf32_h {
     include!(concat!(env!("NUCLEO_VERIF_DIR"), "/matcher/utf32_h.rs"));
 }
+#[allow(dead_code, unused_imports, unused_macros, unused_variables, unused_assignments, unexpected_cfgs)]
+pub(crate) mod dispatch_h {
+    include!(concat!(env!("NUCLEO_VERIF_DIR"), "/matcher/dispatch_h.rs"));
+}
 #[cfg(not(kani))]
 #[allow(dead_code, unused_imports, unused_macros, unused_variables, unused_assignments, unexpected_cfgs)]
 pub(crate) mod replay {
